@@ -3667,7 +3667,9 @@ class Fused(Blockwise):
                 nested_deps = _expr.dependencies()
                 for key, task in subgraph.items():
                     if _is_fused_placeholder(task):
-                        nested_aliases.append((key, nested_deps[int(task[1:])]))
+                        nested_aliases.append(
+                            (key, nested_deps[_fused_placeholder_position(task)])
+                        )
                     else:
                         graph[key] = task
                 graph[(name, nested_index)] = name
@@ -3691,10 +3693,10 @@ class Fused(Blockwise):
         position = {}
         if len(original_deps) == len(dependencies):
             for i, dep in enumerate(original_deps):
-                graph[self._blockwise_arg(dep, index)] = "_" + str(i)
+                graph[self._blockwise_arg(dep, index)] = _fused_placeholder(i)
                 position.setdefault(dep._name, i)
         for i, dep in enumerate(dependencies):
-            graph[self._blockwise_arg(dep, index)] = "_" + str(i)
+            graph[self._blockwise_arg(dep, index)] = _fused_placeholder(i)
             position.setdefault(dep._name, i)
 
         for key, dep in nested_aliases:
@@ -3704,7 +3706,7 @@ class Fused(Blockwise):
             if dep._name in local_names:
                 graph[key] = self._blockwise_arg(dep, index)
             elif dep._name in position:
-                graph[key] = "_" + str(position[dep._name])
+                graph[key] = _fused_placeholder(position[dep._name])
 
         return (
             Fused._execute_task,
@@ -3715,12 +3717,30 @@ class Fused(Blockwise):
     @staticmethod
     def _execute_task(graph, name, *deps):
         for i, dep in enumerate(deps):
-            graph["_" + str(i)] = dep
+            graph[_fused_placeholder(i)] = dep
         return dask.core.get(graph, name)
 
 
+# Keys of the external dependencies inside the graph of a fused group. Every
+# string argument of a task that equals a key is replaced by that key's value,
+# so this must not be a plausible column label or user string (like "_0")
+_FUSED_PLACEHOLDER_PREFIX = "__dask_expr_fused_dependency_"
+
+
+def _fused_placeholder(i):
+    return _FUSED_PLACEHOLDER_PREFIX + str(i)
+
+
 def _is_fused_placeholder(task):
-    return isinstance(task, str) and task[:1] == "_" and task[1:].isdigit()
+    return (
+        isinstance(task, str)
+        and task.startswith(_FUSED_PLACEHOLDER_PREFIX)
+        and task[len(_FUSED_PLACEHOLDER_PREFIX) :].isdigit()
+    )
+
+
+def _fused_placeholder_position(task):
+    return int(task[len(_FUSED_PLACEHOLDER_PREFIX) :])
 
 
 # Used for sorting with None
